@@ -13,6 +13,7 @@ declare -A CHECKS=(
   [strict-decimal-fields]="C02 C01 C03"
   [save-lock-yielding]="C13 C14 C15 C16 C10 C11"
   [shared-node-schema]="C01 C04 C13 C14 C15"
+  [cooperative-yields]="C01 C02 C03 C04 C05 C06 C07 C08 C09 C10 C11 C12 C13 C16 C19"
 )
 names="${CONTROLS:-${!CHECKS[@]}}"
 for name in $names; do
